@@ -106,6 +106,31 @@ class EmuCheck(Check):
             out.append(self.program_group("a%d" % i, words, base, regs0, rng.randrange(1 << 30), len(words), data=data))
         return out
 
+    def writeback_programs(self, rng, tier):
+        """read original image data, overwrite it with another value, write the original back (same range, a part,
+        an overlapping range), read again: a byte reads as its most recent write even when that equals the image"""
+        SW = {1: 0, 2: 1, 4: 2, 8: 3}
+        LD = {1: 4, 2: 5, 4: 6, 8: 3}       # lbu lhu lwu ld
+        out, k = [], 0
+        for w in (1, 2, 4, 8):
+            for w2, d2 in ((w, 0), (1, 0), (1, w - 1), (w, 1), (max(1, w // 2), 0)):
+                for off in (0, 3):
+                    base = CODE_BASES[k % len(CODE_BASES)]
+                    basev = sum(b << (8 * j) for j, b in enumerate(base))
+                    win = basev + 0x800
+                    data = [{"off": 0x800, "bytes": [(0x31 + 7 * j + k) % 256 for j in range(24)]}]
+                    words = [i_type(0x03, LD[w2], rd=6, rs1=5, imm=off + d2),            # x6 := original bytes
+                             s_type(0x23, SW[w], rs1=5, rs2=7, imm=off),                # overwrite with x7
+                             i_type(0x03, LD[8], rd=8, rs1=5, imm=0),
+                             s_type(0x23, SW[w2], rs1=5, rs2=6, imm=off + d2),          # write the original back
+                             i_type(0x03, LD[8], rd=9, rs1=5, imm=0),
+                             i_type(0x03, LD[w], rd=10, rs1=5, imm=off),
+                             i_type(0x03, LD[1], rd=11, rs1=5, imm=off + d2)]
+                    regs0 = {"x5": le8(win), "x7": le8(rng.getrandbits(64) | 1)}
+                    out.append(self.program_group("wb%d" % k, words, base, regs0, rng.randrange(1 << 30), len(words), data=data))
+                    k += 1
+        return out
+
     def mnemonic_programs(self, rng, tier):
         out = []
         reps = 1 if tier == "quick" else 6
@@ -175,7 +200,8 @@ class EmuCheck(Check):
 
     def all_groups(self, tier, seed):
         rng = random.Random(seed * 141650939 + 3)
-        return self.access_programs(rng, tier, seed) + self.mnemonic_programs(rng, tier) + self.random_programs(rng, tier)
+        return (self.access_programs(rng, tier, seed) + self.writeback_programs(rng, tier) + self.mnemonic_programs(rng, tier)
+                + self.random_programs(rng, tier))
 
     def nontrivial_key(self, group, events):
         steps = [e for e in events if e["op"] == "step" and not e["err"] and not e["panic"]]
